@@ -16,7 +16,73 @@ from cv.core import VERIF, Check  # noqa: E402
 from cayleypy import CayleyGraph, MatrixGroups, PermutationGroups, create_graph, prepare_graph  # noqa: E402
 
 # theorems `regenerated constructor ∘ create = closed-form specification` (translator harness/extract/pylean.py)
-GEN_MODULES = {"C15g2": [], "C15g3": [], "C15g4": [], "C15g5": []}
+GEN_MODULES = {
+    "C15g2": [
+        "Cv.C15g2.full_reversals_gen",
+        "Cv.C15g2.full_reversals_gen_neg",
+        "Cv.C15g2.all_transpositions_gen",
+        "Cv.C15g2.all_transpositions_gen_neg",
+        "Cv.C15g2.signed_reversals_gen",
+        "Cv.C15g2.signed_reversals_gen_neg",
+        "Cv.C15g2.transposons_gen",
+        "Cv.C15g2.transposons_gen_neg",
+        "Cv.C15g2.block_interchange_gen",
+        "Cv.C15g2.block_interchange_gen_neg",
+    ],
+    "C15g3": [
+        "Cv.C15g3.transposition_gen",
+        "Cv.C15g3.transposition_gen_none",
+        "Cv.C15g3.lx_gen",
+        "Cv.C15g3.lx_gen_neg",
+        "Cv.C15g3.lrx_gen",
+        "Cv.C15g3.lrx_gen_neg",
+        "Cv.C15g3.lrx_gen_neg_k",
+        "Cv.C15g3.pancake_gen",
+        "Cv.C15g3.pancake_gen_neg",
+        "Cv.C15g3.create_coxeter_generators_gen",
+        "Cv.C15g3.coxeter_gen",
+        "Cv.C15g3.coxeter_gen_neg",
+        "Cv.C15g3.cyclic_coxeter_gen",
+        "Cv.C15g3.cyclic_coxeter_gen_neg",
+        "Cv.C15g3.stars_gen",
+        "Cv.C15g3.stars_gen_neg",
+        "Cv.C15g3.top_spin_gen",
+        "Cv.C15g3.top_spin_gen_neg",
+        "Cv.C15g3.larx_gen",
+        "Cv.C15g3.larx_gen_neg",
+        "Cv.C15g3.generalized_stars_gen",
+        "Cv.C15g3.generalized_stars_gen_neg",
+        "Cv.C15g3.burnt_pancake_gen",
+        "Cv.C15g3.burnt_pancake_gen_neg",
+        "Cv.C15g3.cubic_pancake_pancake_generator_gen",
+        "Cv.C15g3.cubic_pancake_gen",
+        "Cv.C15g3.cubic_pancake_gen_neg",
+    ],
+    "C15g4": [
+        "Cv.C15g4.prefix_cycles_gen",
+        "Cv.C15g4.prefix_cycles_gen_neg",
+        "Cv.C15g4.consecutive_k_cycles_gen",
+        "Cv.C15g4.consecutive_k_cycles_gen_neg",
+        "Cv.C15g4.down_cycles_gen",
+        "Cv.C15g4.down_cycles_gen_neg",
+        "Cv.C15g4.three_cycles_01i_gen",
+        "Cv.C15g4.three_cycles_01i_gen_neg",
+        "Cv.C15g4.wrapped_k_cycles_gen",
+        "Cv.C15g4.wrapped_k_cycles_gen_neg",
+        "Cv.C15g4.lsl_cycles_gen",
+        "Cv.C15g4.lsl_cycles_gen_neg",
+        "Cv.C15g4.permutation_from_cycles_cycleFn",
+        "Cv.C15g4.permutation_from_cycles_nat",
+    ],
+    "C15g5": [
+        "Cv.C15g5.rapaport_m2_gen",
+        "Cv.C15g5.rapaport_m2_gen_neg",
+        "Cv.C15g5.koltsov3_gen",
+        "Cv.C15g5.rapaport_m1_gen",
+        "Cv.C15g5.sheveleva2_gen",
+        "Cv.C15g5.sheveleva2_gen_neg",
+    ],
+}
 
 THEOREMS = [
     "Cv.C15.index_lists_sorted",
